@@ -27,9 +27,20 @@ def enqueue (qs : List (Lane × List Ev)) (e : Ev) : List (Lane × List Ev) :=
   | [] => [(e.lane, [e])]
   | (l, q) :: r => if l = e.lane then (l, q ++ [e]) :: r else (l, q) :: enqueue r e
 
+/-- stable insertion sort (structural, so that concrete runs reduce in the kernel): `x` is put in
+front of the first element whose key is not smaller, so equal keys keep their input order like
+Python's `list.sort` -/
+def insertBy (x : Ev) : List Ev → List Ev
+  | [] => [x]
+  | y :: r => if keyLe x y then x :: y :: r else y :: insertBy x r
+
+def isort : List Ev → List Ev
+  | [] => []
+  | x :: r => insertBy x (isort r)
+
 /-- `drain`: sort every queue (stable), emit the queues in dict order -/
 def drainQueues (qs : List (Lane × List Ev)) : List Ev :=
-  qs.flatMap (fun lq => lq.2.mergeSort keyLe)
+  qs.flatMap (fun lq => isort lq.2)
 
 def sortStage (evs : List Ev) : List Ev := drainQueues (evs.foldl enqueue [])
 
